@@ -711,8 +711,9 @@ class FilterCollector(WrappingCollector):
         restrict = self.restrict
         ftc = top_searcher._filter_to_comb
 
-        self._allow = ftc(allow) if allow else None
-        self._restrict = ftc(restrict) if restrict else None
+        # An empty allow set means "nothing is allowed", not "no filter"
+        self._allow = ftc(allow) if allow is not None else None
+        self._restrict = ftc(restrict) if restrict is not None else None
         self.filtered_count = 0
 
     def all_ids(self):
@@ -723,8 +724,8 @@ class FilterCollector(WrappingCollector):
 
         for global_docnum in child.all_ids():
             if (
-                (_allow and global_docnum not in _allow) or
-                (_restrict and global_docnum in _restrict)
+                (_allow is not None and global_docnum not in _allow) or
+                (_restrict is not None and global_docnum in _restrict)
             ):
                     continue
             yield global_docnum
